@@ -48,10 +48,7 @@ FINDINGS = {
     "absent-left-int-divide-returns-zero": ('F_absent_left_zero "//"', [("//", "absent", "int"), ("//", "absent", "float")]),
     "absent-left-modulus-returns-zero": ('F_absent_left_zero "%"', [("%", "absent", "int"), ("%", "absent", "float")]),
     "absent-left-power-returns-zero": ('F_absent_left_zero "**"', [("**", "absent", "int"), ("**", "absent", "float")]),
-    "xor-collection-null-asymmetric": ("F_xor_collection_null", [("^", "array", "null"), ("^", "map", "null"), ("^", "null", "array"), ("^", "null", "map")]),
     "max-empty-beats-number": ("F_max_empty_number", _fp_max([("void", "int"), ("void", "float"), ("int", "void"), ("float", "void")])),
-    "max-error-null-returns-null": ("F_max_error_null", _fp_max([("error", "null"), ("null", "error")])),
-    "power-error-absent-returns-absent": ("F_pow_error_absent", [("**", "error", "absent"), ("**", "absent", "error")]),
 }
 FOOT = {cell: cls for cls, (_, cells) in FINDINGS.items() for cell in cells}
 # repaired in /repo (fix: 481d57d86): no longer excludable anywhere -- the theorems cover these cells unconditionally; a regression
@@ -59,6 +56,9 @@ FOOT = {cell: cls for cls, (_, cells) in FINDINGS.items() for cell in cells}
 REPAIRED = {
     "absent-left-dotminus-negates": [(".-", "absent", "int"), (".-", "absent", "float")],
     "empty-left-dottimes-negates": [(".*", "void", "int"), (".*", "void", "float")],
+    "xor-collection-null-asymmetric": [("^", "array", "null"), ("^", "map", "null"), ("^", "null", "array"), ("^", "null", "map")],
+    "max-error-null-returns-null": _fp_max([("error", "null"), ("null", "error")]),
+    "power-error-absent-returns-absent": [("**", "error", "absent"), ("**", "absent", "error")],
 }
 REPAIRED_FOOT = {cell: cls for cls, cells in REPAIRED.items() for cell in cells}
 
@@ -214,8 +214,6 @@ def refuted(t, cls):
     if cls.startswith("absent-left-") and cls.endswith("returns-zero"):
         op = cells[0][0]
         return t.has2(op, "absent", "int", "Int0") and t.has2(op, "absent", "float", "Float0") and not t.has2(op, "absent", "int", "Arg2")
-    if cls == "xor-collection-null-asymmetric":
-        return t.kinds2("^", "array", "null") != t.kinds2("^", "null", "array") or t.kinds2("^", "map", "null") != t.kinds2("^", "null", "map")
     if cls == "max-empty-beats-number":
         return any(t.has2(op, a, b, "Void") for op, a, b in cells)
     return any(not t.has2(op, a, b, "Error") for op, a, b in cells)
